@@ -29,8 +29,62 @@ func init() {
 }
 
 func optLoad(v ssa.Value, field string) bool {
-	_, ok := ssau.IsFieldLoad(v, optType, field)
-	return ok
+	if _, ok := ssau.IsFieldLoad(v, optType, field); ok {
+		return true
+	}
+	return optAlias(v, field, 0)
+}
+
+var optAliasMemo = map[string]bool{}
+
+// optAlias: v reads a field of another struct of the repository (a per-search
+// filter or settings object) that only ever receives SearchOptions.<field>:
+// every store to that field, anywhere in shipped code, stores a read of the
+// option (or of another such alias).
+func optAlias(v ssa.Value, field string, d int) bool {
+	if curCtx == nil || d > 3 {
+		return false
+	}
+	var owner, name string
+	switch x := v.(type) {
+	case *ssa.UnOp:
+		fa, ok := x.X.(*ssa.FieldAddr)
+		if !ok || x.Op != token.MUL {
+			return false
+		}
+		owner, name = ssau.FieldOwner(fa), ssau.FieldName(fa)
+	case *ssa.Field:
+		owner, name = ssau.NamedOf(x.X.Type()), ssau.FieldName(x)
+	default:
+		return false
+	}
+	if owner == "" || owner == optType || !strings.HasPrefix(owner, load.ModulePath) {
+		return false
+	}
+	key := owner + "." + name + "=" + field
+	if r, ok := optAliasMemo[key]; ok {
+		return r
+	}
+	optAliasMemo[key] = false
+	n, good := 0, true
+	for _, fn := range shippedFuncs(curCtx) {
+		ssau.ForEachInstr(fn, false, func(in ssa.Instruction) {
+			st, ok := in.(*ssa.Store)
+			if !ok {
+				return
+			}
+			fa, ok := st.Addr.(*ssa.FieldAddr)
+			if !ok || ssau.FieldOwner(fa) != owner || ssau.FieldName(fa) != name {
+				return
+			}
+			n++
+			if _, direct := ssau.IsFieldLoad(st.Val, optType, field); !direct && !optAlias(st.Val, field, d+1) {
+				good = false
+			}
+		})
+	}
+	optAliasMemo[key] = good && n > 0
+	return good && n > 0
 }
 
 func runC07(c *Ctx) {
